@@ -11,6 +11,7 @@ CONSTANTS
   Seq = FALSE
   UseLock = TRUE
   UseGapAtomic = TRUE
+  FinalTestsDone = TRUE
   AbortEnabled = TRUE
 PROPERTY Termination
 CHECK_DEADLOCK TRUE
